@@ -846,7 +846,7 @@ def emit_fn(em, d, tmpl_path):
         d0 = find_fn_directive(src_unit, name.strip())
         # the assuming unit may add nothing; contract comes from the proving unit
         dd = FnDirective("assume", d0.target, d.tmpl_line)
-        dd.sections = [s for s in d0.sections if s[0] in ("ret", "requires", "ensures", "recommends", "name", "sigsubst", "attr", "mono", "selftype")]
+        dd.sections = [s for s in d0.sections if s[0] in ("ret", "requires", "ensures", "recommends", "name", "sigsubst", "attr", "mono", "selftype", "macro", "macroarg")]
         d = dd
     path, spec = parse_target(d.target)
     if not spec[-1].startswith(("fn ", "impl")) and " " not in spec[-1]:
